@@ -36,7 +36,16 @@ pub enum Verdict {
 }
 
 #[derive(Default, Clone, Debug)]
-pub struct Stats(pub BTreeMap<&'static str, u64>);
+pub struct Stats(pub BTreeMap<&'static str, u64>, pub Strata);
+
+/// set of reach-probe strata hit (hashed keys)
+#[derive(Default, Clone, Debug)]
+pub struct Strata(pub BTreeSet<u64>);
+impl Strata {
+    pub fn insert(&mut self, k: u64) {
+        self.0.insert(k);
+    }
+}
 
 impl Stats {
     pub fn bump(&mut self, k: &'static str) {
@@ -49,6 +58,7 @@ impl Stats {
         for (k, v) in &o.0 {
             *self.0.entry(k).or_insert(0) += v;
         }
+        self.1 .0.extend(o.1 .0.iter());
     }
     pub fn get(&self, k: &str) -> u64 {
         self.0.get(k).copied().unwrap_or(0)
@@ -816,6 +826,7 @@ pub fn run_check(check: &dyn Check, tier: Tier, seed: u64, runs_override: Option
             "fault_kinds_fired": Value::Object(fault_kinds),
             "counters": Value::Object(counters),
             "reach_probes_at_zero": probes_zero,
+            "strata_hit": total.1 .0.len(),
             "known_finding_hits": known,
             "known_finding_lines": known_lines,
             "components": {"real": meta.real, "simulated": meta.simulated, "model": meta.model},
